@@ -462,32 +462,6 @@ def protected_line_rule(prog, rule):
     non-zero, a line terminator is written before the line loop is re-entered or left."""
     from .. import loops
     fn = prog.fn("write_text")
-    # the protect flag: a local tested in the condition that selects the "\\" suffix of the segment emission
-    flags = set()
-    for (b, i, r, c) in fn.calls_to("u_fprintf"):
-        for a in c.get("args", []):
-            for x in walk(a):
-                if x.get("k") == "cond":
-                    arms = [literal_text(y) for y in walk(x.get("then")) if y.get("k") == "str"] + \
-                           [literal_text(y) for y in walk(x.get("else")) if y.get("k") == "str"]
-                    if "\\" in arms:
-                        def tested(e):
-                            e = strip(e)
-                            if not isinstance(e, dict):
-                                return
-                            if e.get("k") == "ref" and e.get("dk") == "local":
-                                flags.add(e["name"])
-                            elif e.get("k") == "bin" and e.get("op") in ("||", "&&", "!=", "=="):
-                                tested(e.get("lhs"))
-                                tested(e.get("rhs"))
-                            elif e.get("k") == "un" and e.get("op") == "!":
-                                tested(e.get("e"))
-                        tested(x.get("c"))
-    locals_int = {l["name"] for l in fn.locals if l.get("t", "").strip() == "int"}
-    flags &= locals_int
-    if len(flags) != 1:
-        raise Broken("write_text: the protect flag of the fold-marker emission was not identified (candidates: %s)" % sorted(flags))
-    flag = next(iter(flags))
     emit_blocks = {b.id for (b, i, r, n) in fn.calls() if _newline_emission(n)}
     lps = loops.natural_loops(fn)
     outer = [lp for lp in lps if any(bid in lp.body for bid in emit_blocks)
@@ -502,6 +476,50 @@ def protected_line_rule(prog, rule):
     if not inner:
         raise Broken("write_text: segment loop not found")
     seg = min(inner, key=lambda l2: len(l2.body))
+    # the protect flag: a local tested in the condition that selects the "\\" suffix of the segment emission; a local that is
+    # itself computed inside the segment loop (`continued = tok[len] || protect`) is looked through
+    seg_defs = {}
+    for bid in seg.body:
+        for r in fn.blocks[bid].roots:
+            for x in walk_eval(r):
+                if x.get("k") == "asg" and x.get("op") == "=" and isinstance(strip(x.get("lhs")), dict) and strip(x["lhs"]).get("k") == "ref":
+                    seg_defs.setdefault(strip(x["lhs"])["name"], []).append(x.get("rhs"))
+                elif x.get("k") == "decl":
+                    for v in x.get("vars", []):
+                        if v.get("init") is not None:
+                            seg_defs.setdefault(v["name"], []).append(v["init"])
+    flags = set()
+
+    def tested(e, depth=0):
+        e = strip(e)
+        if not isinstance(e, dict) or depth > 4:
+            return
+        if e.get("k") == "ref" and e.get("dk") == "local":
+            if e["name"] in seg_defs:
+                for d_ in seg_defs[e["name"]]:
+                    tested(d_, depth + 1)
+            else:
+                flags.add(e["name"])
+        elif e.get("k") == "bin" and e.get("op") in ("||", "&&", "!=", "=="):
+            tested(e.get("lhs"), depth)
+            tested(e.get("rhs"), depth)
+        elif e.get("k") == "un" and e.get("op") == "!":
+            tested(e.get("e"), depth)
+    for (b, i, r, c) in fn.calls_to("u_fprintf"):
+        if b.id not in seg.body:
+            continue
+        for a in c.get("args", []):
+            for x in walk(a):
+                if x.get("k") == "cond":
+                    arms = [literal_text(y) for y in walk(x.get("then")) if y.get("k") == "str"] + \
+                           [literal_text(y) for y in walk(x.get("else")) if y.get("k") == "str"]
+                    if "\\" in arms:
+                        tested(x.get("c"))
+    locals_int = {l["name"] for l in fn.locals if l.get("t", "").strip() == "int"}
+    flags &= locals_int
+    if len(flags) != 1:
+        raise Broken("write_text: the protect flag of the fold-marker emission was not identified (candidates: %s)" % sorted(flags))
+    flag = next(iter(flags))
     exits = sorted({s for bid in seg.body for s in fn.blocks[bid].succs if s is not None and s not in seg.body and s in lp.body})
     if not exits:
         raise Broken("write_text: the segment loop has no exit inside the line loop")
